@@ -1,6 +1,6 @@
 (** Non-vacuity of the growth theorems (Props/C09.v, Props/C10.v): concrete reachable states that meet
     their hypotheses, with a non-empty backlog. *)
-From JR Require Import Pool PoolBase PoolInvDefs PoolInvE PoolInvG PoolInvH PoolSafety PoolLifecycle PoolGrowth.
+From JR Require Import Pool PoolBase PoolInvDefs PoolInvE PoolInvG PoolInvH PoolSafety PoolLifecycle PoolGrowth PoolFifo.
 
 Definition ex_progs (c : nat) : list op :=
   match c with 0%nat => [OStart] | 1%nat => [OEnqueue; OEnqueue; OEnqueue] | _ => [] end.
@@ -34,3 +34,9 @@ Example ex_window :
   stopped s = false /\ ctl s <> CSTQsize /\ ewin (cpc (cs s 1%nat)) = true /\ length (q s) = 1%nat /\
   count serving (ws s) (next_w s) = 0%nat.
 Proof. cbv zeta. repeat split; try (vm_compute; reflexivity). vm_compute. discriminate. Qed.
+
+(** FIFO, non-vacuity: a single worker runs three tasks; the log is [2; 1; 0]. *)
+Definition ex_fifo_sched : list (thr * bool) :=
+  repeat (TC 0%nat, false) 30 ++ repeat (TC 1%nat, false) 80 ++ repeat (TW 0%nat, false) 60.
+Example ex_fifo_log : start_log (run ex_fifo_sched (init 1 0 ex_progs)) = [2; 1; 0]%nat.
+Proof. vm_compute. reflexivity. Qed.
